@@ -22,7 +22,22 @@ const (
 	kRec kind = iota + 100
 	kRecList
 	kSet
+	kAbs // a named Go type (an interface such as a hash or MAC object) represented by an abstract Lean type (-abs)
 )
+
+// absTypes: pkgpath.Type -> name of the Lean type variable standing for it (current unit)
+var absTypes map[string]string
+
+func absTypeOf(ty types.Type) (string, bool) {
+	if len(absTypes) == 0 || ty == nil {
+		return "", false
+	}
+	if n, ok := ty.(*types.Named); ok && n.Obj().Pkg() != nil {
+		s, ok := absTypes[n.Obj().Pkg().Path()+"."+n.Obj().Name()]
+		return s, ok
+	}
+	return "", false
+}
 
 type recInfo struct {
 	key      string // pkgname.Type as given on the command line
@@ -124,6 +139,9 @@ func recordOf(ty types.Type) *recInfo {
 func leanTypeStatic(ty types.Type) string {
 	k, _ := classify(ty)
 	switch k {
+	case kAbs:
+		s, _ := absTypeOf(ty)
+		return s
 	case kRec:
 		return recordOf(ty).lean
 	case kRecList:
@@ -136,6 +154,9 @@ func leanTypeStatic(ty types.Type) string {
 }
 
 func classifyRecord(ty types.Type) (kind, bool) {
+	if _, ok := absTypeOf(ty); ok {
+		return kAbs, true
+	}
 	if len(recordSpecs) > 0 {
 		if recordOf(ty) != nil {
 			return kRec, true
